@@ -33,7 +33,7 @@ InDomUn(op, a, p) ==
        [] op = "exp" -> FLt(FAbs(a.re), FOfInt(20))
        [] op = "log" -> FLt(Small, a.re)
        [] op = "ncdf" -> FLt(FAbs(a.re), FOfRat(17, 2))
-       [] op = "incdf" -> FLt(Tiny, a.re) /\ FLt(a.re, FSub(FOne, Tiny))
+       [] op = "incdf" -> FLt(FZ, a.re) /\ FLt(a.re, FOne)                      \* the whole open interval: the quantile is smooth up to both ends
        [] op = "abs" -> FLt(Tiny, FAbs(a.re))
        [] OTHER -> TRUE
 InDomBin(op, a, b) ==
